@@ -358,7 +358,7 @@ def run(ctx):
         raise SystemExit(2)
     R = Runner(ctx)
 
-    nlogs, llen = (300, 120) if quick else (600, 140)
+    nlogs, llen = (300, 120) if quick else (1200, 140)
     jobs = []
     if ctx.replay:
         rp = json.load(open(ctx.replay))
